@@ -781,6 +781,22 @@ impl C06 {
         let mut rows_with_oob = 0usize;
         if let (Some(s), Some(oob)) = (&samples, &a.oob) {
             if s.len() == member.len() && oob.len() == n && s.iter().all(|m| m.len() == n) {
+                // rows that are in the bag of every tree: the out-of-bag aggregate runs over NO tree. Whatever value the
+                // library's convention gives for an empty aggregate (0/0, the first class, ...), it is the same empty
+                // aggregate for all of them: the values must not differ from row to row — if they do, trees that contain
+                // the row have been consulted.
+                let no_tree: Vec<usize> = (0..n).filter(|i| (0..s.len()).all(|t| s[t][*i])).collect();
+                if no_tree.len() >= 2 {
+                    let first = oob[no_tree[0]];
+                    if let Some(j) = no_tree.iter().find(|j| oob[**j].to_bits() != first.to_bits()) {
+                        rep.fail(
+                            "oob-uses-in-bag-trees",
+                            "forest-oob",
+                            format!("{}: training rows {} and {} are in the bag of every tree, yet predict_oob returns {:e} for one and {:e} for the other (an aggregate over no tree cannot depend on the row)", ctx, no_tree[0], j, first, oob[*j]),
+                        );
+                    }
+                    rep.count("probe.rows-without-oob-tree-compared", 1);
+                }
                 for i in 0..n {
                     let ts: Vec<usize> = (0..s.len()).filter(|t| !s[*t][i]).collect();
                     if ts.is_empty() {
